@@ -19,6 +19,10 @@ EXTENDS Naturals, Sequences, FiniteSets, TLC, Json
 CONSTANTS MaxK, M, EmitRecords
 
 VARIABLES K, S, start, companions,
+          newModel,      \* the version that hands the app over also brings a NEW model (Tag), whose CreateModel
+                         \* is part of 0001_initial - a migration the handover marks as covered: its table
+                         \* has to be created by the evolution stage, as for any new model
+          tagTable,      \* the table of that model exists
           moveSql,       \* the evolution that carries MoveToDjangoMigrations also adds a column (x): it has SQL
           declares,      \* ... and declares AFTER_MIGRATIONS = [('mig', '0002_m1')], the companion's pending
                          \* migration, next to the dependencies the move itself generates
@@ -37,7 +41,7 @@ VARIABLES K, S, start, companions,
           sigMethod, sigApplied,
           pc, run
 
-vars == <<K, S, start, companions, moveSql, declares, premarked, failFirst, attempted, evoRecorded, evoExecuted, migRecorded, migExecuted,
+vars == <<K, S, start, companions, newModel, tagTable, moveSql, declares, premarked, failFirst, attempted, evoRecorded, evoExecuted, migRecorded, migExecuted,
           soft, columns, sigMethod, sigApplied, pc, run>>
 
 (* evolution labels before the move, in sequence order *)
@@ -69,6 +73,8 @@ Starts == {<<"fresh", 0>>, <<"legacy", 0>>} \cup { <<"evo", j>> : j \in 0..P } \
 Init == /\ K \in 0..MaxK /\ S \in 0..M
         /\ start \in Starts
         /\ companions \in SUBSET {"blog", "mig"}
+        /\ newModel \in (IF start[1] = "evo" /\ S >= 1 THEN BOOLEAN ELSE {FALSE})
+        /\ tagTable = FALSE
         /\ moveSql \in BOOLEAN
         /\ declares \in (IF moveSql /\ "mig" \in companions /\ start[1] = "evo" THEN BOOLEAN ELSE {FALSE})
         \* only when an evolution with SQL is pending is there a statement to fail at
@@ -95,14 +101,14 @@ Init == /\ K \in 0..MaxK /\ S \in 0..M
                   /\ sigMethod = "migrations" /\ sigApplied = 1..start[2]
 
 Recorded == { n \in 1..M : migRecorded[n] > 0 }
-Step(next) == pc' = next /\ UNCHANGED <<K, S, start, companions, moveSql, declares, run, failFirst, attempted, premarked>>
+Step(next) == pc' = next /\ UNCHANGED <<K, S, start, companions, newModel, moveSql, declares, run, failFirst, attempted, premarked>>
 
 (* a failed attempt: the first evolution statement fails, the transaction is rolled back, and
    (as repaired, the marks being recorded only after all batches) nothing at all has changed *)
 FailedAttempt ==
     /\ pc = "begin" /\ failFirst /\ ~attempted /\ run = 1
     /\ attempted' = TRUE
-    /\ UNCHANGED <<K, S, start, companions, moveSql, declares, failFirst, premarked, run, pc, evoRecorded, evoExecuted, migRecorded,
+    /\ UNCHANGED <<K, S, start, companions, newModel, tagTable, moveSql, declares, failFirst, premarked, run, pc, evoRecorded, evoExecuted, migRecorded,
                    migExecuted, soft, columns, sigMethod, sigApplied>>
 
 (* a brand-new app that ends up on migrations is created by its migrations; the whole
@@ -110,7 +116,7 @@ FailedAttempt ==
 FreshInstall ==
     /\ pc = "begin" /\ sigMethod = "none"
     /\ evoRecorded' = SeqSet(AllEvos)
-    /\ UNCHANGED <<evoExecuted, migRecorded, migExecuted, soft, columns, sigMethod, sigApplied>>
+    /\ UNCHANGED <<tagTable, evoExecuted, migRecorded, migExecuted, soft, columns, sigMethod, sigApplied>>
     /\ Step("migrate")
 
 (* pending evolutions first, the move among them *)
@@ -120,6 +126,8 @@ RunEvolutions ==
        IN /\ evoExecuted' = pending
           /\ evoRecorded' = evoRecorded \cup SeqSet(pending)
           /\ columns' = columns \cup ColsOfEvos(pending)
+    \* a model that is new in this version gets its table here, whatever the migrations say about it
+    /\ tagTable' = (tagTable \/ newModel)
     /\ UNCHANGED <<migRecorded, migExecuted, soft, sigMethod, sigApplied>>
     /\ Step("mark")
 
@@ -127,12 +135,12 @@ RunEvolutions ==
 MarkApplied ==
     /\ pc = "mark"
     /\ migRecorded' = [n \in 1..M |-> IF n <= S /\ migRecorded[n] = 0 THEN 1 ELSE migRecorded[n]]
-    /\ UNCHANGED <<evoRecorded, evoExecuted, migExecuted, soft, columns, sigMethod, sigApplied>>
+    /\ UNCHANGED <<tagTable, evoRecorded, evoExecuted, migExecuted, soft, columns, sigMethod, sigApplied>>
     /\ Step("migrate")
 
 AlreadyOnMigrations ==
     /\ pc = "begin" /\ sigMethod = "migrations"
-    /\ UNCHANGED <<evoRecorded, evoExecuted, migRecorded, migExecuted, soft, columns, sigMethod, sigApplied>>
+    /\ UNCHANGED <<tagTable, evoRecorded, evoExecuted, migRecorded, migExecuted, soft, columns, sigMethod, sigApplied>>
     /\ Step("migrate")
 
 (* every remaining migration, lowest first (the chain is linear) *)
@@ -146,19 +154,19 @@ RunMigration ==
           /\ soft' = IF isSoft THEN Append(soft, n) ELSE soft
           /\ migRecorded' = [migRecorded EXCEPT ![n] = @ + 1]
           /\ columns' = columns \cup ColsOfMig(n)
-    /\ UNCHANGED <<evoRecorded, evoExecuted, sigMethod, sigApplied>>
+    /\ UNCHANGED <<tagTable, evoRecorded, evoExecuted, sigMethod, sigApplied>>
     /\ Step("migrate")
 
 SaveSignature ==
     /\ pc = "migrate" /\ Recorded = 1..M
     /\ sigMethod' = "migrations" /\ sigApplied' = Recorded
-    /\ UNCHANGED <<evoRecorded, evoExecuted, migRecorded, migExecuted, soft, columns>>
+    /\ UNCHANGED <<tagTable, evoRecorded, evoExecuted, migRecorded, migExecuted, soft, columns>>
     /\ Step("done")
 
 (* the second upgrade *)
 Rerun == /\ pc = "done" /\ run = 1
          /\ run' = 2 /\ pc' = "begin" /\ evoExecuted' = <<>> /\ migExecuted' = <<>> /\ soft' = <<>>
-         /\ UNCHANGED <<K, S, start, companions, moveSql, declares, failFirst, attempted, premarked, evoRecorded, migRecorded, columns,
+         /\ UNCHANGED <<K, S, start, companions, newModel, tagTable, moveSql, declares, failFirst, attempted, premarked, evoRecorded, migRecorded, columns,
                         sigMethod, sigApplied>>
 
 Next == FailedAttempt \/ FreshInstall \/ RunEvolutions \/ MarkApplied \/ AlreadyOnMigrations \/ RunMigration
@@ -176,7 +184,7 @@ RemainingExecutedInOrder ==
 PendingEvolutionsFirst == (Done /\ run = 1 /\ start[1] = "evo") =>
                              evoExecuted = SubSeq(AllEvos, start[2] + 1, Len(AllEvos))
 SignatureListsRecorded == Done => sigMethod = "migrations" /\ sigApplied = Recorded
-SchemaComplete == Done => columns = ColsOfMigs(1..M)
+SchemaComplete == Done => (columns = ColsOfMigs(1..M) /\ (newModel => tagTable))
 NoEvolutionSqlOnceOnMigrations == (Done /\ (run = 2 \/ start[1] = "onmig")) => evoExecuted = <<>>
 RerunIsNoop == (Done /\ run = 2) => evoExecuted = <<>> /\ migExecuted = <<>> /\ soft = <<>>
 (* only a table nobody has on record is taken over that way, and only its initial migration *)
@@ -202,7 +210,7 @@ SetToSeq(X) == IF X = {} THEN <<>> ELSE LET x == CHOOSE y \in X : TRUE IN <<x>> 
 
 Emit == (EmitRecords /\ Done) =>
           PrintT(<<"REC", ToJson([K |-> K, S |-> S, start |-> start, companions |-> SetToSeq(companions),
-                                   moveSql |-> moveSql, declares |-> declares,
+                                   moveSql |-> moveSql, declares |-> declares, newModel |-> newModel,
                                    failFirst |-> failFirst, premarked |-> premarked,
                                    run |-> run, evoExecuted |-> evoExecuted, migExecuted |-> migExecuted, soft |-> soft,
                                    evoRecorded |-> SetToSeq(evoRecorded), migRecorded |-> migRecorded,
